@@ -18,6 +18,9 @@ def wire_session(env, caps, log):
     class S(impl.ScriptSession):
         async def handle_query(self, sql, attrs):
             log.append((sql, dict(attrs)))
+            # an application may use the mapping it is handed as its own (tag the statement, pop what it consumed): it belongs
+            # to this statement only
+            attrs["request_id"] = str(len(log))
             return None
     srv = impl.make_server(env, lambda: S(env, 0))
     c = impl.Conn(env, srv)
